@@ -19,7 +19,7 @@ var harness = &simcore.Harness{
 	Props:  []string{"C01", "C02", "C03", "C04", "C05", "C06", "C08", "C10", "C11", "C15", "C18"},
 	Config: genConfig,
 	New:    newSim,
-	MaxOps: 4000,
+	MaxOps: 9000,
 	Real: []string{"node.NewNode wiring incl. genesis/state loading and consensus.Handshaker", "consensus.State (receiveRoutine, handleMsg, enterX, finalizeCommit, catchupReplay, WAL repair)",
 		"consensus.BaseWAL + autofile on tmpfs files", "state.BlockExecutor, state.Store, store.BlockStore (over simdisk.CrashDB)", "privval.FilePV + libs/tempfile on tmpfs files",
 		"mempool v0/v1, evidence.Pool, types.EventBus, txindex IndexerService + kv indexers", "proxy.AppConns with local ABCI clients"},
